@@ -58,7 +58,95 @@ pub fn run(ctx: &Ctx) -> Outcome {
         sim_case(ctx, &mut out, &mut rng, idx);
     }
     stress(ctx, &mut out);
+    let histories: u64 = if ctx.thorough { 14 * 40_000 } else { 16_000 };
+    for idx in ctx.my_cases(histories) {
+        let mut rng = ctx.rng("C13-router", idx);
+        router_history(ctx, &mut out, &mut rng, idx);
+    }
     out
+}
+
+/// Lane ROUTER-MODEL: one router, sequential histories of routing updates in every shard state
+/// (active / splitting / pending deletion), invalidations and TTL expiry (the interposed monotonic
+/// clock jumps), against a three-line model: an update is taken unless an entry with a larger
+/// generation is cached - whatever that entry's state or age. Observed through `get_shard`, which
+/// must never hand out a generation below the newest one the router has been told about (and not
+/// invalidated since).
+fn router_history(ctx: &Ctx, out: &mut Outcome, rng: &mut Rng, idx: u64) {
+    const TTL_S: u64 = 600;
+    let router = ShardRouter::new(std::time::Duration::from_secs(TTL_S));
+    let key = cardinalsin::sharding::ShardKey::new(0, "m", 0);
+    // model: (generation, state code, age in seconds since cached)
+    let mut cached: Option<(u64, u8, u64)> = None;
+    let mut trace: Vec<String> = vec![];
+    let n = 3 + rng.usize(8);
+    let mut saw_refusal_of_nonroutable = false;
+    for _ in 0..n {
+        match rng.below(10) {
+            0 => {
+                router.invalidate(&"r".to_string().into());
+                cached = None;
+                trace.push("invalidate".into());
+            }
+            1 | 2 => {
+                let d = *rng.pick(&[1u64, 300, 599, 601, 700, 5000]);
+                crate::clock::advance_mono(d as i64 * 1_000_000_000);
+                if let Some(c) = cached.as_mut() {
+                    c.2 += d;
+                }
+                trace.push(format!("+{}s", d));
+            }
+            _ => {
+                let g = 1 + rng.below(5);
+                let st = rng.below(3) as u8;
+                let mut m = meta("r", st, g as i64);
+                m.generation = g;
+                m.key_range = (vec![], vec![255u8; 16]);
+                router.update_routing(m);
+                let taken = match cached {
+                    Some((cg, _, _)) => g >= cg,
+                    None => true,
+                };
+                if !taken {
+                    if let Some((_, cst, age)) = cached {
+                        if cst != 0 || age > TTL_S {
+                            saw_refusal_of_nonroutable = true;
+                        }
+                    }
+                }
+                if taken {
+                    cached = Some((g, st, 0));
+                }
+                trace.push(format!("update(gen {}, {})", g, ["active", "splitting", "pending-deletion"][st as usize]));
+            }
+        }
+        out.eval();
+        // the margin around the TTL: ages within 2 s of it are not judged (real time also passes)
+        let near_ttl = cached.map(|c| c.2 + 2 >= TTL_S && c.2 <= TTL_S + 2).unwrap_or(false);
+        let expect: Option<u64> = match cached {
+            Some((g, 0, age)) if age <= TTL_S => Some(g),
+            _ => None,
+        };
+        let got = router.get_shard(&key).map(|s| s.generation);
+        if !near_ttl && got != expect {
+            let newest = cached.map(|c| c.0);
+            let sig = match (got, newest) {
+                (Some(g), Some(n)) if g < n => "C13/router/older-generation-replaced-newer",
+                _ => "C13/router/lookup-differs-from-model",
+            };
+            out.violation(
+                sig,
+                &format!("after {:?} the router answers generation {:?}; the newest generation it was told (and has not invalidated) is {:?}, a lookup should give {:?}", trace, got, newest, expect),
+                json!({"lane": "router-model", "history": idx, "seed": ctx.seed, "trace": trace}),
+            );
+            return;
+        }
+    }
+    out.count("router_model.histories", 1);
+    if saw_refusal_of_nonroutable {
+        out.count("router_model.older_update_offered_to_a_splitting_or_expired_entry", 1);
+        out.nontrivial(hash_str(&format!("router|{:?}", trace)));
+    }
 }
 
 fn sim_case(ctx: &Ctx, out: &mut Outcome, rng: &mut Rng, idx: u64) {
